@@ -229,8 +229,18 @@ def write_ndjson(path, items):
 
 
 def read_ndjson(path):
+    """A process that died hard may leave a cut last line: it is dropped (the driver re-runs that case)."""
     with open(path) as f:
-        return [json.loads(l) for l in f if l.strip()]
+        lines = [l for l in f if l.strip()]
+    out = []
+    for i, l in enumerate(lines):
+        try:
+            out.append(json.loads(l))
+        except json.JSONDecodeError:
+            if i == len(lines) - 1:
+                break
+            raise
+    return out
 
 
 def run_harness(rvh, cases, workdir, name="trace", timeout_ms=10000, max_timeouts=6):
@@ -276,6 +286,11 @@ def run_harness(rvh, cases, workdir, name="trace", timeout_ms=10000, max_timeout
         except (OSError, ValueError):
             pass
         evs = read_ndjson(tpath) if os.path.exists(tpath) else []
+        if len(evs) < cur:
+            # events of earlier cases were lost with the process: run those cases again
+            write_ndjson(tpath, evs)
+            start = len(evs)
+            continue
         evs = evs[:cur]
         evs.append({"ev": "crash", "id": cases[cur].get("id"), "mode": cases[cur].get("mode"),
                     "rc": p.returncode, "msg": p.stdout[-300:]})
